@@ -810,6 +810,63 @@ def compact(part, keep=25):
     return part
 
 
+OP_HASH_STACKSCAN = 11
+
+
+def stack_cases(alg, seed):
+    """one-shot / hex entry points keep their context in an automatic object: after the call returned the tail of
+    the message (what the context buffered) must not be readable on the dead stack"""
+    rng = Rng(PROP, "stackscan", seed, alg)
+    b = BLOCK[alg]
+    out = []
+    for n in (40, b - 9, b + 40, 2 * b + 33):
+        for hexe in (0, 1):
+            msg = bytes(rng.below(255) + 1 for _ in range(n))
+            tail = msg[(n // b) * b:]
+            needles = [tail[:32], msg[:32]]
+            pay = (bytes((OP_HASH_STACKSCAN, alg, 0, hexe)) + struct.pack("<I", n) + msg + bytes((len(needles),)) +
+                   b"".join(struct.pack("<I", len(x)) + x for x in needles))
+            out.append({"alg": alg, "hex": hexe, "n": n, "msg": msg.hex(), "payload": pay, "expect": ref_digest(alg, msg)})
+    return out
+
+
+def judge_stack(part, v, vname, cases, results):
+    cnt = part["counters"]
+    for t, obs in zip(cases, results):
+        ename = "%s.%s" % (ALG_NAMES[t["alg"]], "hex" if t["hex"] else "oneshot")
+        w = {"variant": vname, "build": v["spec"], "case": {"alg": t["alg"], "hex": t["hex"], "n": t["n"], "msg": t["msg"], "scan": True},
+             "seed": common.seed()}
+        if isinstance(obs, common.Crash):
+            part["violations"].append((common.crash_key(obs, ename + ".stackscan"), dict(w, observed="crash %s" % obs.kind, report=obs.report[-2000:])))
+            continue
+        r = common.R(obs)
+        st = r.u8()
+        if st == 3:
+            continue
+        if st != 0:
+            part["violations"].append(("harness:%s:stackscan-status" % ename, dict(w, observed="status %d" % st)))
+            continue
+        out = r.blob()
+        tail_at, head_at = r.i64(), r.i64()
+        part["evaluations"] += 1
+        cnt["stack_scans"] = cnt.get("stack_scans", 0) + 1
+        got = bytes.fromhex(out[:-1].decode()) if t["hex"] else out
+        if got != t["expect"]:
+            part["violations"].append(("oracle:%s:wrong-digest:on-private-stack" % ename, dict(w, expected=t["expect"].hex(), observed=got.hex())))
+        if tail_at >= 0 and "-O0" in (v["spec"].get("flags") or []):
+            # unoptimised code keeps every temporary in memory (vector registers holding the block are spilled by the
+            # transform): such a copy is not the context and is not judged
+            k = "stack:%s:message-bytes-on-stack-in-O0-build" % ename
+            part["observations"][k] = part["observations"].get(k, 0) + 1
+        elif tail_at >= 0:
+            part["violations"].append(("stack:%s:context-buffer-left-on-stack" % ename,
+                                       dict(w, observed="32 bytes of the message tail (what the context buffered) found %d bytes below the "
+                                            "top of the private stack after the call returned" % tail_at)))
+        if head_at >= 0 and t["n"] >= BLOCK[t["alg"]]:
+            k = "stack:%s:copy-of-a-full-block-left-on-stack" % ename
+            part["observations"][k] = part["observations"].get(k, 0) + 1
+
+
 def worker(job):
     """job: kind, alg, params, tier, seed, variants{vname -> v}"""
     part = common.new_part()
@@ -840,6 +897,12 @@ def worker(job):
             pl = [with_force(full[i], f) for i in red_idx]
             res, storm = run_batched(v["exe"], pl)
             judge_run(part, v, vname, f, red_tpls, res, storm)
+    if kind == "inject":
+        for vname in sorted(job["variants"]):
+            v = job["variants"][vname]
+            if v["spec"].get("san") == "plain":
+                sc = stack_cases(alg, seed)
+                judge_stack(part, v, vname, sc, common.run_cases(v["exe"], [t["payload"] for t in sc]))
     for t in tpls:      # free memory early in long jobs
         t.pop("payload", None)
     part["counters"]["templates"] = len(tpls)
@@ -938,6 +1001,19 @@ def replay(path):
         print("replay: variant does not build:", e)
         return 2
     t = w["case"]
+    if t.get("scan"):
+        msg = bytes.fromhex(t["msg"])
+        b = BLOCK[t["alg"]]
+        tail = msg[(len(msg) // b) * b:]
+        pay = (bytes((OP_HASH_STACKSCAN, t["alg"], 0, t["hex"])) + struct.pack("<I", len(msg)) + msg + bytes((2,)) +
+               b"".join(struct.pack("<I", len(x)) + x for x in (tail[:32], msg[:32])))
+        part = common.new_part()
+        judge_stack(part, {"spec": w["build"]}, w["variant"], [dict(t, payload=pay, expect=ref_digest(t["alg"], msg))],
+                    common.run_cases(exe, [pay]))
+        for k, ww in part["violations"]:
+            print(" %s: %s" % (k, ww.get("observed")))
+        print(" verdict: %s" % ("still failing" if part["violations"] else "not reproduced"))
+        return 1 if part["violations"] else 0
     t["mspec"] = tuple(t["mspec"]) if t["mspec"][0] != "rand" else ("rand", tuple(t["mspec"][1]), t["mspec"][2])
     force = w.get("force", 0)
     payload = rebuild_payload(t, force)
